@@ -158,6 +158,8 @@ class Server(object):
         self.have_mailfrom = None
         self.have_rcptto = None
 
+        self._check_close_code(reply)
+
     def _encrypt_session(self):
         if not self.io.encrypt_socket_server(self.context):
             return False
